@@ -231,6 +231,38 @@ func (c *Ctx) limitChecked(f *ssa.Function, at ssa.Instruction, tx ssa.Value, ch
 			}
 		}
 		if !found {
+			// the check may live in a helper that is called first with the same transaction
+			for _, cs := range engine.Calls(f) {
+				g := cs.Common().StaticCallee()
+				if g == nil || !isProductPkg(engine.RelPkg(c.P.OwnPkgPath(g))) || !engine.InstrDominates(cs.Instr, at) {
+					continue
+				}
+				g = engine.Unwrap2(g)
+				inLoopOnly := false
+				for _, h := range f.Blocks {
+					body := engine.LoopBody(h)
+					if body != nil && body[at.Block()] && !body[cs.Instr.Block()] {
+						inLoopOnly = true
+					}
+				}
+				if inLoopOnly {
+					continue
+				}
+				for pi, p := range g.Params {
+					if !engine.IsNamed(p.Type(), "db", "Transaction") {
+						continue
+					}
+					arg := engine.ArgForParam(cs.Common(), g, pi)
+					if arg == nil || (txOrigin(arg) != tx && !(engine.AccessPath(arg) != "" && engine.AccessPath(arg) == engine.AccessPath(tx))) {
+						continue
+					}
+					if c.helperChecks(g, p, chk, read) {
+						found = true
+					}
+				}
+			}
+		}
+		if !found {
 			missing = append(missing, chk)
 		}
 	}
@@ -394,4 +426,36 @@ func valName(v ssa.Value) string {
 		return p
 	}
 	return v.Name()
+}
+
+// helperChecks: g performs limit check chk, fed from `read` on its transaction parameter, on
+// every path to a nil-error return.
+func (c *Ctx) helperChecks(g *ssa.Function, tx *ssa.Parameter, chk, read string) bool {
+	if len(g.Blocks) == 0 {
+		return false
+	}
+	cut := map[ssa.Instruction]bool{}
+	for _, cs := range engine.Calls(g) {
+		if cs.Instr.Parent() != g || !isLimitCheck(cs, chk) {
+			continue
+		}
+		for _, x := range arithLeaves(cs.Common().Args[1]) {
+			if isReadOn(x, read, tx) {
+				cut[cs.Instr] = true
+			}
+		}
+	}
+	if len(cut) == 0 {
+		return false
+	}
+	for _, ret := range engine.Returns(g) {
+		lr := engine.LastResult(ret)
+		if lr != nil && !engine.IsNilConst(lr) {
+			continue
+		}
+		if engine.ReachesAvoiding(g, ret, cut, nil) {
+			return false
+		}
+	}
+	return true
 }
